@@ -464,8 +464,35 @@ def seed_inputs_deterministic(ctx, R, tool, ds_cls):
                 continue  # the base seed has its own rule (it may be random when --seed is absent)
             n += 1
             seen, work, bad = set(), [(nsite, actual[p])], []
+            set_iter = []
+
+            def _set_valued(v_):
+                return isinstance(v_, (ast.Set, ast.SetComp)) or (isinstance(v_, ast.Call) and isinstance(v_.func, ast.Name) and v_.func.id in ("set", "frozenset")) or (
+                    isinstance(v_, ast.BinOp) and isinstance(v_.op, (ast.BitOr, ast.BitAnd, ast.Sub, ast.BitXor)) and (_set_valued(v_.left) or _set_valued(v_.right)))
+
+            def _iterated(it_):
+                # the collection a comprehension / enumerate / zip walks (sorted(...) fixes the order)
+                if isinstance(it_, ast.Call) and isinstance(it_.func, ast.Name) and it_.func.id in ("enumerate", "zip", "list", "tuple", "iter", "reversed") and it_.args:
+                    return [y for a_ in it_.args for y in _iterated(a_)]
+                return [it_]
             while work:
                 at, e = work.pop()
+                for x in ast.walk(e):
+                    if isinstance(x, ast.comprehension):
+                        for it_ in _iterated(x.iter):
+                            if _set_valued(it_):
+                                set_iter.append(it_)
+                            elif isinstance(it_, ast.Name):
+                                vals_ = []
+                                for n_ in tool.body_nodes():
+                                    if isinstance(n_, ast.Assign):
+                                        for t_ in n_.targets:
+                                            if astq.is_name(t_, it_.id):
+                                                vals_.append(n_.value)
+                                            elif isinstance(t_, ast.Tuple) and isinstance(n_.value, ast.Tuple) and len(t_.elts) == len(n_.value.elts):
+                                                vals_ += [v2 for t2, v2 in zip(t_.elts, n_.value.elts) if astq.is_name(t2, it_.id)]
+                                if vals_ and all(_set_valued(v2) for v2 in vals_):
+                                    set_iter.append(it_)
                 for x in ast.walk(e):
                     if isinstance(x, ast.Call):
                         q = prog.qualify(tool.module, x.func, tool) or ""
@@ -481,7 +508,11 @@ def seed_inputs_deterministic(ctx, R, tool, ds_cls):
                         "interpreter processes (str hashes are salted per process), so a run that is killed and resumed - always a new process - seeds the "
                         "remaining utterances differently from an uninterrupted run, and two runs with the same --seed differ"
                         % (attr, astq.text(x)[:50]), "per-item seed inputs are process-independent")
-            if not bad:
+            for x in set_iter[:1]:
+                ctx.bad(R, tool, site, "self.%s, which torch.manual_seed reads, is computed by walking the set `%s`: the iteration order of a set of strings follows their "
+                        "hashes, which are salted per interpreter process, so positions taken from it differ between a run and its resumption (and between any two "
+                        "runs with the same --seed)" % (attr, astq.text(x)[:40]), "per-item seed inputs are process-independent", robust=True)
+            if not bad and not set_iter:
                 ctx.ok(R, tool.loc(site), "self.%s (<- %s) is computed from the map file and the command line only" % (attr, astq.text(actual[p])[:40]))
     ctx.floor(R, n, 1)
 
